@@ -666,5 +666,20 @@ def replay(mod, path: Path):
     return 0
 
 
+def _main_with_scratch():
+    """every temporary file of a run (harness temp files of the worker processes, which never run their atexit handlers) lives in
+    one private directory that is removed when the run ends"""
+    import shutil
+    import tempfile
+    d = tempfile.mkdtemp(prefix="verif_run_")
+    os.environ["TMPDIR"] = d
+    tempfile.tempdir = d
+    try:
+        return main()
+    finally:
+        tempfile.tempdir = None
+        shutil.rmtree(d, ignore_errors=True)
+
+
 if __name__ == "__main__":
-    sys.exit(main())
+    sys.exit(_main_with_scratch())
